@@ -77,6 +77,7 @@ type Replica struct {
 	// observation of the app-level outcome of the call in flight
 	EscapedPanic interface{}
 	Dead         string // non-empty once the app closed itself / panicked out (not a simulated crash)
+	Stalled      bool   // an ABCI call did not return within core.StallLimit
 	Restarts     int
 	InHandshake  bool
 }
